@@ -221,7 +221,8 @@ inline void run_range(const Unit& u, long long lo, long long hi) {
       sig = g().pid + "|crash|" + what + "|" + nospace(u.name.substr(0, u.name.find('.', u.name.find('.') + 1)));
       detail = err.substr(0, 900);
     }
-    if (!sig.empty()) V(sig, u.name + "#" + std::to_string(zidx) + " :: " + zcase, "unit " + u.name + " idx " + std::to_string(zidx) + ": " + detail);
+    // a case text that starts with '#' is a replayable extra (history) of the unit
+    if (!sig.empty()) V(sig, u.name + "#" + std::to_string(zidx) + (zcase.size() && zcase[0] == '#' ? zcase : " :: " + zcase), "unit " + u.name + " idx " + std::to_string(zidx) + ": " + detail);
     C("child_crashes");
     if (zidx < 0 || crashes >= u.maxcrash) { ctx().complete = false; C("units_abandoned"); break; }
     start = zidx + 1;
